@@ -99,12 +99,12 @@ def _rfirst(v, first):
 
 
 @bounded("page-labels-outlines-destinations-on-generated-documents", props=["C17"],
-         bound="quick: 120 documents: page-label number trees (flat, Kids+Limits, nested, direct/indirect nodes; styles D R r A(<=26) a(<=26) none; prefixes incl. UTF-16; St), outline forests (depth <= 3, up to 1500 siblings once), name trees for destinations (flat, Kids+Limits, absent names); thorough: 2500")
+         bound="quick: 120 documents: page-label number trees (flat, Kids+Limits, nested, direct/indirect nodes; styles D R r A(<=26) a(<=26) none; prefixes incl. UTF-16; St), outline forests (depth <= 3, up to 1500 siblings once), name trees for destinations (flat, Kids+Limits, absent names); thorough: 20000")
 def _(tier, seed):
     import io, random
     from specs.pdfgen import build, Name, Ref
     rng = random.Random(seed + 17)
-    n = 120 if tier == "quick" else 2500
+    n = 120 if tier == "quick" else 20000
     PDFParser = real_module("pdfminer.pdfparser").PDFParser
     PDFDocument = pd.PDFDocument
     failures, evals, distinct = [], 0, set()
